@@ -98,3 +98,77 @@ def model_check(work, decls, progs, modes=None, chunk=None, timeout=1800, name='
         flags.extend(fl)
         outs.append(r['out'])
     return flags, states, trans, outs
+
+
+def visible(evs):
+    """project one recorded execution onto the events InjectorTrace.tla consumes"""
+    out = []
+    mode = ''
+    for e in evs:
+        k = e['ev']
+        if k == 'Call':
+            mode = e.get('mode', '')
+            if e.get('pre'):
+                out.append({'ev': 'Cancel'})
+        elif k == 'Enter':
+            out.append({'ev': 'Enter', 'p': e['p'], 'args': e['args']})
+        elif k == 'Exit':
+            out.append({'ev': 'Exit', 'p': e['p'], 'ok': e['ok']})
+        elif k == 'Cancel':
+            out.append({'ev': 'Cancel'})
+        elif k == 'Return':
+            out.append({'ev': 'Return', 'site': e['site'], 'cls': e['cls'], 'term': e['term']})
+        elif k == 'Hang':
+            out.append({'ev': 'Hang'})
+        elif k == 'Panic':
+            return None, mode
+    out.append({'ev': 'End'})
+    m = {'none': [], 'fail': ['fail'], 'cancel': ['cancel'], 'failcancel': ['fail', 'cancel']}.get(mode, ['fail', 'cancel'])
+    return out, m
+
+
+def trace_validate(work, decls, progs, traces_by_decl, per_prog=6, cap=600, timeout=1800, name='wt'):
+    """White-box validation of real executions against the extracted programs (InjectorTrace.tla).
+    traces_by_decl: {decl id: [event lists]}.  -> (validated, states, failures [(decl id, trace index, position)])"""
+    items = [(d, p) for d, p in zip(decls, progs) if not p['unmodelled'] and traces_by_decl.get(d['id'])]
+    if not items:
+        return 0, 0, []
+    nchunks = min(pl.NCPU, max(1, len(items) // 4))
+    chunks = [items[i::nchunks] for i in range(nchunks)]
+    budget = max(1, cap // max(1, len(items)))
+
+    def one(ci):
+        its = chunks[ci]
+        dd, pp, tt, owner = [], [], [], []
+        for k, (d, p) in enumerate(its):
+            dd.append(ds.tla_decl(d))
+            q = dict(p)
+            q['declidx'] = k + 1
+            pp.append(q)
+            trs = traces_by_decl[d['id']]
+            # spread over the recorded executions (they are ordered by mode)
+            step = max(1, len(trs) // min(per_prog, budget, len(trs)))
+            for evs in trs[::step][: min(per_prog, budget)]:
+                vis, mode = visible(evs)
+                if vis is None:
+                    continue
+                tt.append({'prog': k + 1, 'mode': mode, 'events': vis})
+                owner.append(d['id'])
+        if not tt:
+            return 0, 0, []
+        r = pl.tlc(work, 'InjectorTrace', 'InjectorTrace.cfg', files={'decls.json': json.dumps(dd), 'progs.json': json.dumps(pp),
+                                                                      'wtraces.json': json.dumps(tt)},
+                   workers=1, timeout=timeout, name='%s-%d' % (name, ci), java_opts='-Xss256m')
+        outp = os.path.join(r['dir'], 'wtrace_out.json')
+        if not os.path.exists(outp):
+            raise pl.ExitTwo('InjectorTrace.tla failed (rc=%s):\n%s\n%s' % (r['rc'], r['out'][-3000:], r['err'][-1500:]))
+        o = json.load(open(outp))
+        _, dist = pl.tlc_stats(r['out'])
+        fails = []
+        reached = o['reached']
+        if reached[0] <= len(tt):
+            fails.append((owner[reached[0] - 1], reached[0], reached[1], tt[reached[0] - 1]['events'][max(0, reached[1] - 2): reached[1] + 1]))
+        return len(tt) if not fails else reached[0] - 1, dist, fails
+
+    res = pl.pmap(one, range(nchunks), workers=min(nchunks, pl.NCPU))
+    return sum(r[0] for r in res), sum(r[1] for r in res), [f for r in res for f in r[2]]
